@@ -48,6 +48,7 @@ type script struct {
 	greedy     bool // consumer drains in a loop from the start
 	late       int  // consumer only starts before call #late (-1: per-call flags)
 	absent     bool // consumer absent until Close: it asks for Status() only once the writer is inside Close()
+	asksSize   bool // ... and calls Size() before its first receive
 }
 
 func (s script) render() string {
@@ -69,7 +70,7 @@ func (s script) render() string {
 		}
 		parts = append(parts, p)
 	}
-	return fmt.Sprintf("stringWriter=%v greedy=%v late=%d absentUntilClose=%v: %s", s.stringable, s.greedy, s.late, s.absent, strings.Join(parts, "; "))
+	return fmt.Sprintf("stringWriter=%v greedy=%v late=%d absentUntilClose=%v asksSizeFirst=%v: %s", s.stringable, s.greedy, s.late, s.absent, s.asksSize, strings.Join(parts, "; "))
 }
 
 // wrapped writers ---------------------------------------------------------
@@ -245,6 +246,12 @@ func runScript(s script) (string, outcome) {
 			close(closeReturned)
 		}()
 		synctest.Wait()
+		if s.asksSize {
+			// the consumer looks at the total first (the writer is parked in Close(), nothing can change it)
+			if got := pw.Size(); got != total {
+				return fmt.Sprintf("Size() = %d while Close() waits for its consumer, want the final total %d", got, total), oc
+			}
+		}
 		for v := range pw.Status() { // a hang here is reported by the bubble as a deadlock
 			received = append(received, v)
 		}
@@ -308,6 +315,7 @@ func genScript(t *rapid.T) script {
 		s.late = rapid.IntRange(0, 10).Draw(t, "late")
 	case 2:
 		s.absent = true
+		s.asksSize = rapid.Bool().Draw(t, "consumerAsksSizeFirst")
 	}
 	every := rapid.IntRange(0, 4).Draw(t, "consumeEvery") // 0: never until Close
 	n := rapid.IntRange(0, 14).Draw(t, "ncalls")
@@ -364,6 +372,7 @@ func firstLine(s string) string {
 func TestScripts(t *testing.T) {
 	rt.Check(t, 5000, 5000000, func(t *rapid.T) {
 		s := genScript(t)
+		rt.Describe(s.render())
 		msg, oc := runInBubble(t, s)
 		if msg != "" {
 			t.Fatalf("%s\nscript: %s", msg, s.render())
